@@ -16,6 +16,7 @@ META = dict(
          "ignore random_order: reported as open known findings K1a/K1b.",
     technique="term extraction + exhaustive comparison over flag values; array-shape abstract interpretation",
 )
+META["text"] += " (R5, N) no array inherits the sample's dtype through np.full_like / np.empty_like (= C12.R6), and in-place conventions are keyed to the null mean, not to the statistic (= C01.R5)."
 
 REL = nnm.REL
 
